@@ -159,6 +159,29 @@ fn enumerate_faults(base: &v1::Instance) -> Vec<Fault> {
             m.decision_variable_dependency.insert(UNDEF, crate::mk::fconst(1.0));
         }));
     }
+    // an id that is used, not defined as a variable, but recorded as a key of `Instance.parameters` (the values an
+    // earlier with_parameters call instantiated): parameters of an Instance are history, not definitions
+    let with_param = |m: &mut v1::Instance| {
+        let mut p = m.parameters.clone().unwrap_or_default();
+        p.entries.insert(UNDEF, 2.0);
+        m.parameters = Some(p);
+    };
+    v.push(fault("undefined-id objective + recorded parameter of the same id".into(), "undefined-id@objective/also-a-recorded-parameter", true, None, move |m| {
+        add_undefined(&mut m.objective, UNDEF, 1);
+        with_param(m);
+    }));
+    for i in 0..na {
+        v.push(fault(format!("undefined-id constraint[{i}] + recorded parameter of the same id"), "undefined-id@constraint/also-a-recorded-parameter", true, None, move |m| {
+            add_undefined(&mut m.constraints[i].function, UNDEF, 1);
+            with_param(m);
+        }));
+    }
+    for i in 0..nr {
+        v.push(fault(format!("undefined-id removed[{i}] + recorded parameter of the same id"), "undefined-id@removed/also-a-recorded-parameter", true, None, move |m| {
+            add_undefined(&mut m.removed_constraints[i].constraint.as_mut().unwrap().function, UNDEF, 1);
+            with_param(m);
+        }));
+    }
     // required fields
     v.push(fault("sense-unspecified".into(), "unset-sense", false, Some(("UnspecifiedEnum", "sense")), |m| m.sense = 0));
     v.push(fault("objective-absent".into(), "unset-objective", false, Some(("MissingField", "objective")), |m| m.objective = None));
@@ -439,7 +462,7 @@ impl Property for C08 {
         let mut v: Vec<String> = [
             "dup-variable-id", "dup-constraint-id@active", "dup-constraint-id@active/removed", "dup-constraint-id@removed", "undefined-id@objective", "undefined-id@constraint", "undefined-id@removed", "unset-sense", "unset-objective",
             "unset-objective-oneof", "unset-constraint-function", "unset-constraint-function-oneof", "unset-equality", "unset-removed-constraint", "unset-removed-function", "unset-removed-function-oneof", "unset-removed-equality", "unset-kind",
-            "bound-nan-lower", "bound-nan-upper", "bound-lower=+inf", "bound-upper=-inf", "bound-lower>upper", "bound-lower>upper-by-one-ulp", "undefined-id@objective/zero-coefficient", "undefined-id@objective/aliases-defined-id-mod-2^32", "undefined-id@objective/also-a-dependency-key", "hint-undefined-constraint", "hint-added-undefined-constraint", "hint-added-undefined-constraint@no-active-constraints", "hint-undefined-variable", "hint-repeated-variable", "hint-repeated-big-m", "dependency-key-undefined",
+            "bound-nan-lower", "bound-nan-upper", "bound-lower=+inf", "bound-upper=-inf", "bound-lower>upper", "bound-lower>upper-by-one-ulp", "undefined-id@objective/zero-coefficient", "undefined-id@objective/aliases-defined-id-mod-2^32", "undefined-id@objective/also-a-dependency-key", "undefined-id@objective/also-a-recorded-parameter", "undefined-id@removed/also-a-recorded-parameter", "hint-undefined-constraint", "hint-added-undefined-constraint", "hint-added-undefined-constraint@no-active-constraints", "hint-undefined-variable", "hint-repeated-variable", "hint-repeated-big-m", "dependency-key-undefined",
             "dependency-function-unset",
         ]
         .iter()
